@@ -136,6 +136,8 @@ class RetryWorld:
         self.keep = []
         self.t0 = loop.now() + (p['sem_timeout'] if p.get('sem') else 0.0)
         self.caller = asyncio.ensure_future(fn())
+        if p.get('cancel_in_queue'):
+            loop.call_later(p['sem_timeout'] / 3, self.caller.cancel)  # the caller is cancelled while it is still queueing for the slot, before any attempt
         try:
             r = await asyncio.shield(self._wait(self.caller))
         except BaseException as e:  # noqa: BLE001
@@ -188,10 +190,14 @@ def families(tier):
     for r, w, ro in itertools.product((1, 2), (0.5,), ('none', 'listed', 'listed+timeout')):
         out.append(dict(prop='C19', family='c19.retry_after_lax_semaphore_timeout', id=f'c19/sem-r{r}-w{w}-{ro}', cfg=dict(bound=0, cap=200000, free=('outcome',), busy=False, horizon=60.0),
                         p=dict(retries=r, wait=w, bf=2, timeout=1.0, retry_on=ro, sem=True, sem_timeout=0.3)))
+        out.append(dict(prop='C19', family='c19.cancelled_while_queueing_for_the_semaphore', id=f'c19/semcancel-r{r}-w{w}-{ro}', cfg=dict(bound=0, cap=200000, free=('outcome',), busy=False, horizon=60.0),
+                        p=dict(retries=r, wait=w, bf=2, timeout=1.0, retry_on=ro, sem=True, sem_timeout=0.3, cancel_in_queue=True)))
     return out
 
 
 def trigger(spec, res):
+    if spec['p'].get('cancel_in_queue'):
+        return True  # structural: the cancellation is scheduled at a third of the acquisition time-out, while the slot is held by somebody else
     return len(res['calls']) >= 2 or any(o.startswith('cancel') for o in res['outcomes'])
 
 
@@ -234,6 +240,8 @@ def reference(p, outcomes):
             return go(k + 1, t_end + wait, starts, allow_timeout_retry)
         raise KeyError(o)
 
+    if p.get('cancel_in_queue'):
+        return [(0, [], ('cancelled', None))]  # cancelled while waiting for the semaphore: no attempt at all, and the cancellation comes out as a cancellation
     for allow in (False, True):
         r = go(0, 0.0, [], allow)
         if r is not None and r not in res:
